@@ -1768,6 +1768,10 @@ dt_dtcmp(struct dt_dt_s d1, struct dt_dt_s d2)
 		/* always equal */
 		return -2;
 	}
+	if (d1.typ == DT_SEXY || d1.typ == DT_SEXYTAI) {
+		/* epoch values carry no date and time slots */
+		return d1.sxepoch < d2.sxepoch ? -1 : d1.sxepoch > d2.sxepoch;
+	}
 	/* go through it hierarchically and without upmotes */
 	switch (d1.d.typ) {
 		int res;
